@@ -157,9 +157,12 @@ func runCheck(id, tier, repo, keep string, writeEvidence bool) int {
 	} else {
 		os.MkdirAll(dir, 0o755)
 	}
-	timeout := 10
+	// obligations that hold finish when the first solver answers (most in well under a second);
+	// the timeout only bounds the ones that fail. 20 s leaves a wide margin over the slowest
+	// passing obligation (about 6 s, printed as SLOW) on a loaded machine.
+	timeout := 20
 	if tier == "thorough" {
-		timeout = 60
+		timeout = 90
 	}
 	var all []*Obligation
 	var units []*Unit
